@@ -7,6 +7,8 @@ import SpecVerif.Model.Sides
 import SpecVerif.Model.Arma
 import SpecVerif.Model.Burg
 import SpecVerif.Model.Estimators
+import SpecVerif.Model.Eigen
+import SpecVerif.Model.Mtm
 /-
   Line-protocol driver for the executable model (no Mathlib anywhere below this file, so it links as a
   `lean_exe`).
@@ -326,6 +328,33 @@ def handle (cmd : String) (hd : List String) (vs : List (List K)) : Reply K :=
       match armaEstimate (vecAt vs 0) (natAt hd 0) (natAt hd 1) (natAt hd 2) with
       | .ok (a, b, rho) => .ok [a, b, [rho]]
       | .error e => .error e
+  | "fb" => .ok (matReply (fbMatrix (vecAt vs 0) (natAt hd 0)))
+  | "eigenpsd" =>
+      -- eigenpsd P nfft nsig ev | S | col_0 | col_1 ...   (col_i = V[0:P, i] of the code)
+      let nfft := natAt hd 1
+      needTw nfft (fun t =>
+        .ok [eigenPsd t (vs.drop 1) (vecAt vs 0) (natAt hd 2) (natAt hd 0) nfft (natAt hd 3 = 1)])
+  | "eigenclass" => .ok [eigenClassFold (vecAt vs 0) (natAt hd 0 = 1) (natAt hd 1)]
+  | "nsigthr" => .ok [[((signalSpace (vecAt vs 0) none (some (scalAt vs 1)) 0 : Nat) : K)]]
+  | "eigenvalidate" =>
+      -- eigenvalidate methodOk hasNsig nsigSign nsigAbs hasThreshold N P
+      let ns : Option Int := if natAt hd 1 = 1 then some ((if natAt hd 2 = 1 then -1 else 1) * (natAt hd 3 : Int)) else none
+      match eigenValidate (natAt hd 0 = 1) ns (natAt hd 4 = 1) (natAt hd 5) (natAt hd 6) with
+      | .ok _ => .ok []
+      | .error e => .error e
+  | "mtm" =>
+      -- mtm method nfft | x | lams | tolc | taper_0 | taper_1 ...
+      let nfft := natAt hd 1
+      let meth := match strAt hd 0 with | "unity" => MtMethod.unity | "eigen" => MtMethod.eigen | _ => MtMethod.adapt
+      needTw nfft (fun t =>
+        let x := vecAt vs 0
+        let lams := vecAt vs 1
+        let tapers := vs.drop 3
+        let Sk := tapers.map (fun tp => eigenspectrum t x tp nfft)
+        let SkA := Sk.map (fun r => r.map abs2)
+        let w := pmtmWeights meth x lams SkA nfft (scalAt vs 2)
+        let mean := mtMean meth SkA w nfft lams.length
+        .ok (Sk ++ [w.flatten, mean]))
   | "convhist" =>
       -- convhist isComplex nfft cur set:two get:center ... | p
       match sideOf (strAt hd 2), (hd.drop 3).mapM opOf with
